@@ -624,7 +624,7 @@ Error BaseBuilder::_emit(InstId inst_id, const Operand_& o0, const Operand_& o1,
       EmitterUtils::op_array_from_emit_args(op_array, o0, o1, o2, op_ext);
 
       ValidationFlags validation_flags = is_compiler() ? ValidationFlags::kEnableVirtRegs : ValidationFlags::kNone;
-      Error err = _funcs.validate(BaseInst(inst_id, options, _extra_reg), op_array, op_count, validation_flags);
+      Error err = _funcs.validate(BaseInst(inst_id, options, _extra_reg), op_array, Globals::kMaxOpCount, validation_flags);
 
       if (ASMJIT_UNLIKELY(err != Error::kOk)) {
 #ifndef ASMJIT_NO_LOGGING
